@@ -59,9 +59,25 @@ pub fn base_project(n: usize, rich: bool) -> ItemProject {
         if rich || i % 2 == 0 {
             items.push(format!("#[tauri::command]\npub async fn stream_{i}(on_item: Channel<K{i}>) -> bool {{ let _ = on_item; true }}\n", i = i));
         }
+        // two events emitted from every file: `shared` always with the same payload type, `mixed`
+        // with a different one per file. Their emit sites sit at opposite ends of the file in
+        // alternation, so that which sites are neighbours in processing order (and which are
+        // separated by another event) depends on the layout alone.
+        let shared = format!("pub fn shared_{i}(app: &AppHandle, payload: K0) {{ app.emit(\"shared\", payload).unwrap(); }}\n", i = i);
+        let mixed = format!("pub fn mixed_{i}(app: &AppHandle, payload: K{i}) {{ app.emit(\"mixed\", payload).unwrap(); }}\n", i = i);
+        if i % 2 == 1 {
+            items.push(shared.clone());
+        } else {
+            items.push(mixed.clone());
+        }
         items.push(format!("pub fn notify_{i}(app: &AppHandle, payload: T{i}) {{ app.emit(\"changed-{i}\", payload).unwrap(); }}\n", i = i));
         // an emit whose payload is an untyped local: must stay `unknown` whatever else is in the file
         items.push(format!("pub fn raw_{i}(app: &AppHandle) {{ let snapshot = build_snapshot(); app.emit(\"raw-{i}\", snapshot).unwrap(); }}\n", i = i));
+        if i % 2 == 1 {
+            items.push(mixed);
+        } else {
+            items.push(shared);
+        }
         files.push((path, items));
     }
     ItemProject { files }
